@@ -107,6 +107,12 @@ func (g *Graph) continueWalking(found chan x509.CertificateChain, start *GraphEd
 		// was nil, we also aren't doing a duplicate visit, because if we were, the
 		// edge would not be dangling.
 		for _, edge := range edgeSet.edges {
+			// A chain never carries the same (subject, key) pair twice: a
+			// self-signed certificate on the way must not be followed by another
+			// certificate for the same subject and key.
+			if soFar.CertificateSubjectAndKeyInChain(edge.Certificate) {
+				continue
+			}
 			certType := x509.CertificateTypeIntermediate
 			if edge.root {
 				certType = x509.CertificateTypeRoot
